@@ -119,10 +119,10 @@ def r15_3(ctx):
         b = ctx.body(fn)
         vals = set(v for v, ty in core.ints_in_blocks(b, range(len(b.blocks))) if ty == "u16")
         need = {0xBEDE} | ({0x1000} if fn.endswith("get_extension") else set())
-        if need <= vals or (0xBEDE in vals):
+        if need <= vals:
             r.ok({fn.split("::")[-1]: sorted(hex(v) for v in vals & {0xBEDE, 0x1000, 0xFFF0})})
         else:
-            r.violate(fn, "profile", b.where(0), "extension profile id 0xBEDE not used (found %s)" % sorted(hex(v) for v in vals))
+            r.violate(fn, "profile", b.where(0), "extension profile id(s) %s not used (found %s): RFC 8285 one-byte form is 0xBEDE, two-byte form 0x100x" % (sorted(hex(v) for v in need - vals), sorted(hex(v) for v in vals)))
     return r
 
 
@@ -428,5 +428,27 @@ def _const_idx(t):
     return [x[2][1] for x in mir.walk(t) if x[0] == "index" and x[2][0] == "const"]
 
 
+def r15_11(ctx):
+    """a decoder's "is there room for this element" guard must accept the boundary case where the element ends exactly
+    at the end of the buffer: `pos + size > len => stop` / `len < pos + size => error`, not `>=` / `<=`. An over-strict
+    guard silently drops (or refuses) a valid LAST element - e.g. the final attribute of a STUN message, the last report
+    block of an RR - while everything produced by this crate (which ends in other elements) still round-trips."""
+    r = RuleResult("R15.11", "K6", "RTP/RTCP parsers: element-fits guards accept an element that ends exactly at the end of the buffer")
+    n = 0
+    for b in ctx.facts.all_bodies():
+        if "::tests::" in b.name or not b.name.startswith(('rtp::', 'media::depacketizer::', '<media::depacketizer::')):
+            continue
+        for sb, t, tight in core.bound_guards(b):
+            n += 1
+            if tight:
+                r.ok({"site": b.where(sb), "guard": mir.show(t, 90)})
+            else:
+                r.violate(b.name, "guard:over-strict", b.where(sb),
+                          "the guard %s also rejects an element that ends exactly at the end of the buffer (the access it protects is in "
+                          "bounds there): a valid last element is dropped or refused" % mir.show(t, 100))
+    r.need("element-fits guards", n, 7)
+    return r
+
+
 def run(ctx):
-    return [r15_1(ctx), r15_2(ctx), r15_3(ctx), r15_4(ctx), r15_5(ctx), r15_6(ctx), r15_7(ctx), r15_8(ctx), r15_9(ctx), r15_10(ctx)]
+    return [r15_1(ctx), r15_2(ctx), r15_3(ctx), r15_4(ctx), r15_5(ctx), r15_6(ctx), r15_7(ctx), r15_8(ctx), r15_9(ctx), r15_10(ctx), r15_11(ctx)]
